@@ -20,7 +20,7 @@ CORE = ['1', "'a'", 'a', '$v', '(', ')', '[', ']', ',', '/', '//', '.', '..', '@
         'node()', 'text()', '::', 'child', ':', 'p:a', 'to', 'eq', 'is', 'instance', 'of', 'as', 'cast', 'if', 'then', 'else', 'for', 'in', 'return',
         'some', 'satisfies', 'empty-sequence()', 'item()', 'xs:integer', 'union', 'except', 'lt', '!', '||', '=>', '#', '?', '{', '}', 'function',
         'map', 'array', 'let', ':=', 'Q{u}a', '1.5', '1e0', '(:', ':)', 'treat', 'castable', 'idiv', 'intersect', 'every', 'ne', '!=', '<=', '>>',
-        'count', 'position()', 'last()', 'true()', 'xs:date', 'element()', 'attribute()', 'document-node()', 'processing-instruction()', 'comment()']
+        'count', 'position()', 'last()', 'true()', 'xs:date', 'Q{1}a', 'Q{', '{1}a', 'element()', 'attribute()', 'document-node()', 'processing-instruction()', 'comment()']
 REDUCED = ['1', "'a'", 'a', '$v', '(', ')', '[', ']', ',', '/', '//', '.', '@', '*', '-', '|', '=', 'and', 'div', 'node()', '::', 'child', ':',
            'to', 'eq', 'instance', 'of', 'as', 'cast', 'if', 'then', 'else', 'for', 'in', 'return', 'empty-sequence()', 'xs:integer', 'lt', '!', '||',
            '=>', '#', '?', '{', '}', 'function', 'map', 'array', 'let', ':=', '(:', ':)']
@@ -125,6 +125,15 @@ def judge(exc, stage):
     return ('escape:' + type(exc).__name__, site_of(exc))
 
 
+def input_class(src):
+    """inputs that contain the 401-digit integer literal are a class of their own in the signature"""
+    return '|huge-integer' if '1' + '0' * 400 in src else ''
+
+
+def shorten(src):
+    return src.replace('1' + '0' * 400, '1' + '0' * 10 + '...(401 digits)')
+
+
 def run_input(ver, src, acc, origin):
     """parse with the shared per-version parser, then evaluate under each context"""
     p = parser(ver)
@@ -145,7 +154,7 @@ def run_input(ver, src, acc, origin):
                 if bad[0] == 'escape:RecursionError':
                     # re-run once at the default recursion limit before reporting (the limit may have been consumed by the harness)
                     pass
-                acc.violation('C03|%s|parse|%s|%s' % (bad[0], ver, bad[1]), '%s: parse(%r)' % (ver, src), {'exception': repr(e)[:200], 'origin': origin},
+                acc.violation('C03|%s|parse|%s|%s%s' % (bad[0], ver, bad[1], input_class(src)), '%s: parse(%r)' % (ver, shorten(src)), {'exception': repr(e)[:200], 'origin': origin},
                               {'kind': 'input', 'ver': ver, 'src': src})
             return
         acc.case(True)
@@ -163,8 +172,8 @@ def run_input(ver, src, acc, origin):
                 bad = judge(e, 'evaluate')
                 acc.outcome('eval:' + (getattr(e, 'code', None) or type(e).__name__))
                 if bad:
-                    acc.violation('C03|%s|evaluate|%s|%s' % (bad[0], 'all-versions' if True else ver, bad[1]),
-                                  '%s: evaluate %r with context %s' % (ver, src, cname), {'exception': repr(e)[:200], 'origin': origin},
+                    acc.violation('C03|%s|evaluate|%s|%s%s' % (bad[0], 'all-versions' if True else ver, bad[1], input_class(src)),
+                                  '%s: evaluate %r with context %s' % (ver, shorten(src), cname), {'exception': repr(e)[:200], 'origin': origin},
                                   {'kind': 'input', 'ver': ver, 'src': src})
     finally:
         signal.setitimer(signal.ITIMER_REAL, 0)
@@ -175,7 +184,10 @@ def run_input(ver, src, acc, origin):
 
 HIST = [
     '§', ')', '1 2', "'abc", '(: (: :)', '(: open', "1 + 'a'", "xs:integer('x')", 'foo()', 'q:a', '$', '1 +', '(1, 2', 'a[', 'a/', '1 to', "concat('a'",
-    '1 + 2', 'a/b[1]', '(1, 2)[2]', "concat('a', 'b')", 'for $x in (1, 2) return $x', "'s' || 't'", "map { 'a': 1 }?a",
+    '1 => p:f()', '1 => (', "1 => concat('a'", '$f(', 'abs#', 'map {', '[1, ', 'let $x :=', 'function($x', '1 ! (', 'a?', 'Q{1}a', 'if (1) then', 'some $x in',
+    "1 cast as", '1 instance of map(', 'a[1]?', 'child::', '@', 'xs:integer(', "concat(?,",
+    '1 + 2', 'a/b[1]', '(1, 2)[2]', "concat('a', 'b')", 'for $x in (1, 2) return $x', "'s' || 't'", "map { 'a': 1 }?a", '(1, 2) => count()', 'abs(-1)',
+    "concat(?, 'b')('a')", '1 => abs()',
 ]
 
 
@@ -198,6 +210,26 @@ def parse_outcome(p, src, root):
     return ('ok', tok.tree, tok.source, val)
 
 
+def minimise_history(cls, full, probe, want, root):
+    """greedy removal: the shortest sub-history (replayed on a fresh parser each time) after which the probe still differs"""
+    def differs(h):
+        p = cls(namespaces={'p': 'urn:p'})
+        for x in h:
+            parse_outcome(p, x, root)
+        return parse_outcome(p, probe, root) != want
+    cur = list(full)
+    if not differs(cur):
+        return cur          # not reproducible from the strings alone: report the whole history
+    i = 0
+    while i < len(cur):
+        trial = cur[:i] + cur[i + 1:]
+        if differs(trial):
+            cur = trial
+        else:
+            i += 1
+    return cur
+
+
 def run_histories(ver, acc, depth):
     import xml.etree.ElementTree as ET
     root = ET.fromstring('<a><b>1</b><b>2</b></a>')
@@ -212,18 +244,24 @@ def run_histories(ver, acc, depth):
                 parse_outcome(p, HIST[h], root)
                 acc.ev()
             acc.case(any(fresh[HIST[h]][0] != 'ok' for h in hist))
-            # after the history: cursor state and every probe
+            # after the history: every probe, each on the same parser (the probes so far extend the history)
+            done = []
             for s in probes if d < 3 else probes[::3]:
                 got = parse_outcome(p, s, root)
                 acc.ev()
                 acc.cmp()
                 if got != fresh[s]:
-                    sig = 'C03|parser-not-reusable|%s|after-%s' % (ver, fresh[HIST[hist[-1]]][0] if fresh[HIST[hist[-1]]][0] != 'error' else 'error:' + fresh[HIST[hist[-1]]][1])
-                    if sig not in reported:
-                        reported.add(sig)
-                        acc.violation(sig, '%s: history %r then parse(%r)' % (ver, [HIST[h] for h in hist], s),
+                    full = [HIST[h] for h in hist] + done
+                    minimal = minimise_history(cls, full, s, fresh[s], root)
+                    culprit = minimal[-1] if minimal else '(none)'
+                    co = fresh.get(culprit, ('?',))
+                    sig = 'C03|parser-not-reusable|%s|after-%s' % (ver, co[0] if co[0] != 'error' else 'error:' + co[1])
+                    if (sig, culprit) not in reported:
+                        reported.add((sig, culprit))
+                        acc.violation(sig, '%s: history %r then parse(%r)' % (ver, minimal, s),
                                       {'fresh_parser': repr(fresh[s])[:200], 'reused_parser': repr(got)[:200]},
-                                      {'kind': 'history', 'ver': ver, 'hist': [HIST[h] for h in hist], 'probe': s})
+                                      {'kind': 'history', 'ver': ver, 'hist': minimal, 'probe': s})
+                done.append(s)
             acc.outcome('hist:' + fresh[HIST[hist[-1]]][0])
     for s in HIST:
         if fresh[s][0] == 'escape':
@@ -234,7 +272,8 @@ def run_histories(ver, acc, depth):
 
 # ---- operators and functions over an edge-value alphabet ------------------------------------------------------------
 
-VALS10 = ['0', '1', '-1', '3', '9223372036854775808', '1' + '0' * 40, '0.0', '1.5', '-0.0', '0.' + '0' * 29 + '1', '1e0', '0e0', '-0e0', '1e308',
+BIG = '1' + '0' * 400
+VALS10 = ['0', '1', '-1', '3', '9223372036854775808', '1' + '0' * 40, BIG, '0.0', '1.5', '-0.0', '0.' + '0' * 29 + '1', '1e0', '0e0', '-0e0', '1e308',
           '1 div 0e0', '0e0 div 0e0', "''", "'a'", "'1'", "'1e400'", 'true()', 'false()', '/', '//b', '/nothing', '@id']
 VALS20 = ['xs:double("INF")', 'xs:double("NaN")', 'xs:float("1.5")', 'xs:float("NaN")', 'xs:float("-0")', 'xs:untypedAtomic("x")',
           'xs:untypedAtomic("1")', '()', '(1, 2)', '("a", 1)', 'xs:dayTimeDuration("PT0S")', 'xs:yearMonthDuration("P0M")', 'xs:yearMonthDuration("P1M")',
@@ -246,10 +285,10 @@ VALS31 = ['map { }', 'map { "a" : 1 }', '[ ]', '[ 1 , ( ) ]', 'abs#1', 'function
 BINOPS10 = ['+', '-', '*', 'div', 'mod', '=', '!=', '<', '<=', '>', '>=', 'and', 'or', '|']
 BINOPS20 = ['idiv', 'eq', 'ne', 'lt', 'le', 'gt', 'ge', 'is', '<<', 'to', ',', 'union', 'intersect', 'except']
 BINOPS30 = ['||', '!']
-HUGE = {'9223372036854775808', '1' + '0' * 40, '1e308', 'xs:integer("-9223372036854775809")', '1 div 0e0', 'xs:double("INF")'}
+HUGE = {BIG, '9223372036854775808', '1' + '0' * 40, '1e308', 'xs:integer("-9223372036854775809")', '1 div 0e0', 'xs:double("INF")'}
 
 FUNC_ARGS = ['()', '0', '-1', '2', '1.5', '1e0', 'xs:double("NaN")', "''", "'a'", "'http://[x'", '(1, 2)', 'xs:date("2000-01-01")', 'xs:dayTimeDuration("PT0S")', 'true()',
-             '/', '//b', '@id', 'xs:untypedAtomic("x")', 'xs:QName("p:a")', '9223372036854775808', "'\\'", "'[Y]'", "'(a'"]
+             '/', '//b', '@id', 'xs:untypedAtomic("x")', 'xs:QName("p:a")', '9223372036854775808', BIG, "'\\'", "'[Y]'", "'(a'"]
 FUNC_ARGS31 = ['map { "a" : 1 }', '[ 1 , 2 ]', 'abs#1', 'function ( $x , $y ) { $x }']
 FUNC_ARGS3 = ['()', '0', "'a'", '(1, 2)', '/', 'true()', "''"]
 NS_PREFIX = {'http://www.w3.org/2005/xpath-functions/math': 'math', 'http://www.w3.org/2005/xpath-functions/map': 'map',
@@ -359,7 +398,7 @@ def run_with_vars(ver, src, variables, shown, acc):
             bad = judge(e, 'evaluate')
             acc.outcome('eval:' + (getattr(e, 'code', None) or type(e).__name__))
             if bad:
-                acc.violation('C03|%s|evaluate|all-versions|%s' % (bad[0], bad[1]), '%s: evaluate %r with variables for %s' % (ver, src, shown),
+                acc.violation('C03|%s|evaluate|all-versions|%s%s' % (bad[0], bad[1], input_class(shown)), '%s: evaluate %r with variables for %s' % (ver, src, shorten(shown)),
                               {'exception': repr(e)[:200], 'origin': 'operator-matrix with variables'},
                               {'kind': 'vars', 'ver': ver, 'src': src, 'values': [shown.split(' ' + src.split(' ')[1] + ' ')[0], shown.split(' ' + src.split(' ')[1] + ' ')[-1]]})
     finally:
